@@ -117,6 +117,33 @@ def idx {α ι} [ToInt ι] (s : List α) (i : ι) : M α := idxI s (ToInt.toInt 
 @[simp] theorem idx_u32 {α} (s : List α) (b : UInt32) : idx s b = idxI s (b.toNat : Int) := rfl
 @[simp] theorem idx_natlit {α} (s : List α) (n : Nat) : idx s n = idxI s (n : Int) := rfl
 
+instance : ToInt (BitVec 32) := ⟨fun b => (b.toNat : Int)⟩
+
+/-- `s[i] = v` for an index of any Go integer type -/
+def setG {α ι} [ToInt ι] (s : List α) (i : ι) (v : α) : M (List α) := set s (ToInt.toInt i) v
+
+/-- `uint32(x)` when Go's uint32 is modelled by `BitVec 32` -/
+class ToBV32 (α : Type) where toBV32 : α → BitVec 32
+instance : ToBV32 (BitVec 32) := ⟨id⟩
+instance : ToBV32 Int := ⟨fun i => BitVec.ofInt 32 i⟩
+instance : ToBV32 UInt8 := ⟨fun b => BitVec.ofNat 32 b.toNat⟩
+
+/-! ### `map[K]bool` as an association list with distinct keys -/
+
+/-- `m[k]` (false for a missing key) -/
+def mapHas {κ} [DecidableEq κ] : List (κ × Bool) → κ → Bool
+  | [], _ => false
+  | (k', v) :: r, k => if k' = k then v else mapHas r k
+
+/-- `m[k] = v` -/
+def mapPut {κ} [DecidableEq κ] : List (κ × Bool) → κ → Bool → List (κ × Bool)
+  | [], k, v => [(k, v)]
+  | (k', v') :: r, k, v => if k' = k then (k, v) :: r else (k', v') :: mapPut r k v
+
+/-- `delete(m, k)` -/
+def mapDel {κ} [DecidableEq κ] (m : List (κ × Bool)) (k : κ) : List (κ × Bool) :=
+  m.filter fun e => !(decide (e.1 = k))
+
 class ToByte (α : Type) where toByte : α → UInt8
 instance : ToByte UInt8 := ⟨id⟩
 /-- `byte(i)` for a Go int: the low eight bits (two's complement) -/
@@ -179,6 +206,21 @@ def indexByte (s : Bytes) (c : UInt8) : Int := indexByteFrom c s 0
 def repeatBytes (s : Bytes) (n : Int) : M Bytes :=
   if n < 0 then .error (.other "strings: negative Repeat count")
   else .ok ((List.replicate n.toNat s).flatten)
+
+/-- `binary.BigEndian.Uint32(b)`: the first four bytes (panics when there are fewer) -/
+def be32 (b : Bytes) : M (BitVec 32) :=
+  match b with
+  | a :: b :: c :: d :: _ =>
+    .ok ((BitVec.ofNat 32 a.toNat <<< 24) ||| (BitVec.ofNat 32 b.toNat <<< 16) |||
+         (BitVec.ofNat 32 c.toNat <<< 8) ||| BitVec.ofNat 32 d.toNat)
+  | _ => .error (.indexRange 3 b.length)
+
+/-- `net.IP.To4()`: the 4-byte form of an IPv4 address given in 4 or 16 bytes, `none` = nil -/
+def to4 (ip : Bytes) : Option Bytes :=
+  if ip.length = 4 then some ip
+  else if ip.length = 16 ∧ (ip.take 10).all (· == 0) ∧ ip[10]? = some 0xff ∧ ip[11]? = some 0xff
+  then some (ip.drop 12)
+  else none
 
 end Lib
 
